@@ -79,7 +79,7 @@ let show_q (q : float qresult) = match q with
 let () =
   let tbl = ref [] and st = ref { st_cvs = []; st_biases = []; st_nharm = O } in
   let sem : float sem ref = ref { sm_objs = !st; sm_cv = []; sm_bias = []; sm_mod = None } in
-  let ob_mod = ref None and ob_cv = ref [] and ob_bias = ref [] in
+  let ob_mod = ref None and ob_cv = ref [] and ob_bias = ref [] and ob_feat = ref [] in
   let sync_objs () = sem := resync { sm_objs = !st; sm_cv = []; sm_bias = []; sm_mod = None } !st in
   try
     while true do
@@ -122,7 +122,8 @@ let () =
       | 'X' ->
         (* a step; the observation registered by the preceding O lines (none: nothing is known afterwards) *)
         let md = match !ob_mod with Some m -> m | None ->
-          { md_step = Z0; md_energy = nan; md_ids = []; md_masses = []; md_charges = []; md_pos = []; md_af = []; md_tf = [] } in
+          { md_step = Z0; md_energy = nan; md_ids = []; md_masses = []; md_charges = []; md_pos = []; md_af = []; md_tf = []; md_feat = [] } in
+        let md = { md with md_feat = !ob_feat } in
         let had = !ob_mod <> None in
         sem := do_sevent !tbl parse_conf read_file !sem (SStep { ob_ok = (rest <> "0"); ob_mod = md; ob_cv = !ob_cv; ob_bias = !ob_bias });
         if not had then sem := { !sem with sm_mod = None };
@@ -137,8 +138,15 @@ let () =
                       (match c.cs_pending with None -> "-" | Some p -> Stdlib.String.concat "" (List.map (fun b -> if b then "1" else "0") p))
                       (combine (fun a b -> a +. b) 0.0 d.cd_contrib fl_))
             | _ -> None) !sem.sm_cv in
-        ob_mod := None; ob_cv := []; ob_bias := [];
+        ob_mod := None; ob_cv := []; ob_bias := []; ob_feat := [];
         Printf.printf "step | %s | %s\n" (show_state !st) (Stdlib.String.concat " " comp)
+      | 'O' when n > 2 && line.[2] = 'F' ->
+        (* OF key\x1fdescription\x1favailable\x1fenabled\x1f... *)
+        (match split_us (Stdlib.String.sub line 4 (n - 4)) with
+         | key :: l ->
+           let rec trip l = match l with d :: a :: e :: r -> (cs d, (a = "1", e = "1")) :: trip r | _ -> [] in
+           ob_feat := !ob_feat @ [(cs key, trip l)]; print_endline "ok"
+         | _ -> print_endline "?")
       | 'O' ->
         (* OM step energy | ids | masses | charges | pos | af | tf     OV name value af tf active | atoms | grads | component flags | contributions     OB name energy *)
         (match Stdlib.String.split_on_char '|' rest with
@@ -148,7 +156,7 @@ let () =
               ob_mod := Some { md_step = z_of_int (int_of_string step); md_energy = fl en;
                                md_ids = List.map (fun t -> z_of_int (int_of_string t)) (toks ids);
                                md_masses = List.map fl (toks ms); md_charges = List.map fl (toks ch);
-                               md_pos = triples (toks pos); md_af = triples (toks af); md_tf = triples (toks tf) };
+                               md_pos = triples (toks pos); md_af = triples (toks af); md_tf = triples (toks tf); md_feat = [] };
               print_endline "ok"
             | ["V"; n; v; af; tf; act], [atoms; grads; flags; contrib] ->
               ob_cv := !ob_cv @ [(cs n, { cd_value = fl v; cd_af = fl af; cd_tf = fl tf; cd_active = (act = "1");
